@@ -4,6 +4,10 @@ NOTES = ("All checks go through ./check <ID>: real sources of /repo's working tr
          "harness is dual-mode); 2 undecided/infrastructure (never a violation). See DESIGN.md.")
 TODO = "contracts for this property are not built yet in this revision (see DESIGN.md section 5 for the plan); not claimed"
 CHECKS = {
+ "C08": dict(category="other", design_ref="DESIGN.md section 5, C08",
+   technique="CBMC contracts over exactly-sized symbolic-length inputs: totality/bounds postconditions, decode->encode and encode->decode lemma harnesses on the real der.c (included textually for its static T/L codecs)",
+   text="For every DER decoder of der.c and ALL inputs of length 0..CMAX (count symbolic, contents symbolic): no access outside the input or the probed output size, result SIZE_MAX or <= count, accepted input re-encodes to the accepted octets, encoders are inverted by decoders. The T and L codecs read at most 13 octets, so their groups are complete (Pc); the typed decoders are bounded by CMAX (10..14 octets). OID decimal round-trip obligations are attempted only (native search stands in).",
+   note="Bounded in the input length (stated per group); oid.c/apdu/hex/b64/dec and the bpki/CVC/bign containers are not yet under contract. Trusted: CBMC's memmove/strchr/strlen models."),
  "C14": dict(category="other", design_ref="DESIGN.md section 5, C14",
    technique="relational contracts: SAFE==FAST on equal symbolic inputs; branch-trace self-composition via goto-instrument --branch hook (two runs, independent values, equal lengths)",
    text="For every SAFE/FAST pair covered: equality of results on all values for concrete operand lengths (B(N)), and equality of the branch-decision sequence of the SAFE edition on two independent symbolic value sets (self-composition over the goto program, NDEBUG build). A negative control (FAST wwCmp must fail) runs on every invocation. Counterexamples are replayed natively on gcc -O1 machine code through -fsanitize-coverage=trace-pc.",
@@ -18,7 +22,7 @@ CHECKS = {
    note="Trusted: CBMC 6.11; rewrite rule R1 (enum bit-field pre-decrement, front-end crash workaround, must-fire); the monitor's reading of the rules (stated in evidence.assumptions)."),
 }
 NOT_APPLICABLE = {
- "C01": TODO, "C02": TODO, "C03": TODO, "C04": TODO, "C07": TODO, "C08": TODO, "C09": TODO,
+ "C01": TODO, "C02": TODO, "C03": TODO, "C04": TODO, "C07": TODO, "C09": TODO,
  "C10": TODO, "C11": TODO, "C12": TODO, "C15": TODO, "C16": TODO, "C17": TODO, "C19": TODO,
  "C06": "EC group law / scalar multiplication: algebraic identities over GF(p)/GF(2^m) through function-pointer field objects; every query contains modular inversion/multiplication facts no installed back end decides (measured: N>=2 limb products time out); exhaustive small curves are enumeration, not contracts",
  "C13": "bels threshold recovery is CRT over GF(2)[x] with extended GCD; no quantifier-free or SMT-decidable contract states 'any t shares recover the secret'",
